@@ -13,7 +13,7 @@ From SCC Require Import Base.Sexp Lang.SynUtil Lang.FunSyn Lang.CoreSyn Lang.AxS
      Model.Fun2Core Model.Uniquify Model.Focus Model.Shrink Model.SizeDefs Model.Linearize Model.LinCheck Model.Backend Model.X86
      Model.SizeFun Model.SizeWf
      Proof.LinBasics Proof.SizeLin Proof.SizeCodegen Proof.SizeShrink Proof.SizeFocus Proof.SizeGen Proof.SizeUniquify
-     Proof.SizeFun2CoreProg Proof.SizeCodegenWf Proof.SizeX86.
+     Proof.SizeFun2CoreProg Proof.SizeCodegenWf Proof.SizeX86 Proof.LinearizeProof.
 Import ListNotations.
 Open Scope list_scope.
 Open Scope N_scope.
@@ -159,6 +159,16 @@ Theorem pipeline_x86_size_ok : forall p c q s lc r n lc',
   len r <= pipeline_x86_bound p.
 Proof.
   intros p c q s lc r n lc' H1 H2 H3 HL H5. eapply pipeline_x86_size; eauto. apply lin_check_prog_sub_wf. exact HL.
+Qed.
+
+(* the guard discharged by C05 when the shrunk program is well typed with unique binders (prog_ok) *)
+Theorem pipeline_x86_size_prog_ok : forall p c q s lc r n lc',
+  compile_prog p = Fun2Core.Ok c -> focus_prog c = Ok q -> shrink_prog q = SOk s ->
+  prog_ok s = true ->
+  x86_compile (linearize s) lc = Ok (r, n, lc') ->
+  len r <= pipeline_x86_bound p.
+Proof.
+  intros p c q s lc r n lc' H1 H2 H3 HP H5. eapply pipeline_x86_size_ok; eauto. apply linearize_exact. exact HP.
 Qed.
 
 (* ---------- the whole pipeline as one computation (for the vm_compute example of Props/C19.v) ----------
